@@ -122,7 +122,7 @@ for k, f in F.items():
         CASES += [k + ":O", k + ":H"] + ([k + ":HO", k + ":R"] if f["section"] == "UH" else [])
     else:
         CASES.append(k)
-QUICK = ["UH:comp:HO", "PH:plid", "PH:eid", "PH:commit", "PH:creator", "PH:obmc", "UH:sev", "UH:flags", "UH:states", "UH:comp:H",
+QUICK = ["EH:fwrel:n16", "EH:fwsub:n16", "PH:cssver", "UH:comp:HO", "PH:plid", "PH:eid", "PH:commit", "PH:creator", "PH:obmc", "UH:sev", "UH:flags", "UH:states", "UH:comp:H",
          "EH:mtm:n7", "EH:symptom:n4", "MT:sn:n11", "LP:targets:n3", "LP:name:n4", "LP:part_id"]
 
 SLOW = ["UH:flags"]      # 256 paths (8 independent bit tests), ~0.5 s each
